@@ -51,7 +51,21 @@ func genZone() *rapid.Generator[*time.Location] {
 	)
 }
 
+// instants an implementation might special-case
+var specialInstants = []time.Time{
+	{}, // the zero time.Time
+	time.Time{}.In(time.FixedZone("", 8*3600)),
+	time.Time{}.Add(time.Nanosecond),
+	time.Unix(0, 0), time.Unix(0, 0).UTC(), time.Unix(-1, 999999999).UTC(),
+	time.Date(9999, 12, 31, 23, 59, 59, 999999999, time.UTC),
+	time.Date(2000, 1, 1, 0, 0, 0, 0, time.FixedZone("", -3600)),
+}
+
 func genInstant() *rapid.Generator[time.Time] {
+	return rapid.OneOf(rapid.SampledFrom(specialInstants), genInstantAny(), genInstantAny(), genInstantAny(), genInstantAny(), genInstantAny())
+}
+
+func genInstantAny() *rapid.Generator[time.Time] {
 	return rapid.Custom(func(t *rapid.T) time.Time {
 		loc := genZone().Draw(t, "loc")
 		year := rapid.OneOf(rapid.IntRange(1970, 2100), rapid.IntRange(0, 9999), rapid.IntRange(-100, 12000)).Draw(t, "year")
@@ -74,6 +88,14 @@ type scenario struct {
 	LayoutArgs []string
 	Via        string // thru | adapter
 	TS         time.Time
+	// FlagHow: how the date/time/localtime flags get their value
+	//   set        SetFlags(f)
+	//   addremove  ResetFlags(); AddFlags/RemoveFlags one by one
+	//   scope      inside SaveFlagsAndMod(add, remove...) (another flag set is active outside)
+	//   restored   after the restore function of a SaveFlagsAndMod scope in which other flags were
+	//              active and a record was emitted
+	FlagHow    string
+	OtherFlags slog.Flags // the flags active in the other phase (date/time/us/localtime bits)
 }
 
 func layoutPrecision(layout string) time.Duration {
@@ -152,11 +174,47 @@ func run(t vlib.TB, sc scenario) {
 		}
 	}
 	// flags last: NewSlogHandler edits the caller flag
-	flags := (vlib.BaseFlags &^ (slog.Ldate | slog.Ltime | slog.Lmicroseconds | slog.LlocalTime)) | sc.DateFlags
+	const tbits = slog.Ldate | slog.Ltime | slog.Lmicroseconds | slog.LlocalTime
+	flags := (vlib.BaseFlags &^ tbits) | sc.DateFlags
 	if sc.LocalTime {
 		flags |= slog.LlocalTime
 	}
-	slog.SetFlags(flags)
+	other := (vlib.BaseFlags &^ tbits) | (sc.OtherFlags & tbits)
+	emitOther := func() {
+		// a record under the other flag set (primes whatever the implementation may cache)
+		lg.(slog.LogSlogAware).WriteThru(context.Background(), slog.InfoLevel, sc.TS, 0, "other phase", nil)
+		log.Reset()
+	}
+	var restoreScope func()
+	switch sc.FlagHow {
+	case "addremove":
+		slog.ResetFlags()
+		for _, f := range []slog.Flags{slog.Ldate, slog.Ltime, slog.Lmicroseconds, slog.LlocalTime, slog.Lcaller, slog.Llineno, slog.LattrsR} {
+			if flags&f != 0 {
+				slog.AddFlags(f)
+			} else {
+				slog.RemoveFlags(f)
+			}
+		}
+		slog.AddFlags(slog.LnoInterrupt)
+	case "scope":
+		slog.SetFlags(other)
+		emitOther()
+		restoreScope = slog.SaveFlagsAndMod(flags&^other, other&^flags)
+	case "restored":
+		slog.SetFlags(flags)
+		restore := slog.SaveFlagsAndMod(other&^flags, flags&^other)
+		emitOther()
+		restore()
+	default:
+		slog.SetFlags(flags)
+	}
+	if restoreScope != nil {
+		defer restoreScope()
+	}
+	if got := slog.GetFlags() & tbits; got != flags&tbits {
+		t.Fatalf("harness: flags are %#x, wanted %#x (how=%s)", int64(got), int64(flags&tbits), sc.FlagHow)
+	}
 	if layout == "" {
 		var ok bool
 		if layout, ok = flagLayouts[sc.DateFlags]; !ok {
@@ -238,7 +296,7 @@ func run(t vlib.TB, sc scenario) {
 	if nonUTC || sc.LayoutSet || sc.TS.Nanosecond()%1000 != 0 {
 		key = fmt.Sprintf("%s|%s|%#x|%v|%d|%v|%s|%v|%d", sc.Format, sc.Via, int64(sc.DateFlags), sc.LocalTime, mode, sc.LayoutSet, layout, nonUTC, sc.TS.Year()/1000)
 	}
-	labels := []string{"format=" + sc.Format, "via=" + sc.Via, fmt.Sprintf("utcmode=%d", mode), fmt.Sprintf("localTimeFlag=%v", sc.LocalTime), fmt.Sprintf("useUTC=%v", useUTC)}
+	labels := []string{"format=" + sc.Format, "via=" + sc.Via, "flags-via=" + sc.FlagHow, fmt.Sprintf("utcmode=%d", mode), fmt.Sprintf("localTimeFlag=%v", sc.LocalTime), fmt.Sprintf("useUTC=%v", useUTC)}
 	if sc.LayoutSet {
 		labels = append(labels, "custom-layout")
 	}
@@ -275,6 +333,12 @@ func TestTimestamps(t *testing.T) {
 		}
 		sc.Via = rapid.SampledFrom([]string{"thru", "thru", "adapter"}).Draw(t, "via")
 		sc.TS = genInstant().Draw(t, "instant")
+		sc.FlagHow = rapid.SampledFrom([]string{"set", "set", "addremove", "scope", "restored"}).Draw(t, "flagHow")
+		for _, f := range []slog.Flags{slog.Ldate, slog.Ltime, slog.Lmicroseconds, slog.LlocalTime} {
+			if rapid.Bool().Draw(t, "otherFlag") {
+				sc.OtherFlags |= f
+			}
+		}
 		run(t, sc)
 	})
 }
